@@ -106,9 +106,12 @@ theorem genSetPatchesApi_eq (dflt : α) (pix : NDArr α) (patches : PatchArg α)
 
 theorem genConvertPatchesList_eq (dflt : α) (l : List (NDArr α)) (n : Nat) :
     genConvertPatchesList dflt l n = Src.convertPatchesList dflt l n := by
-  unfold genConvertPatchesList Src.convertPatchesList
-  -- the attribute reads of the first entry are independent (all raise IndexError on an empty list, none otherwise)
-  cases l <;> src_eq
+  -- portfolio: the running-index spelling of the loops, or the computed-index spelling (`convertPatchesListIdx`, the
+  -- same function for all arguments: `convertPatchesListIdx_eq`).  The attribute reads of the first entry are
+  -- independent (all raise IndexError on an empty list, none otherwise): `cases l` first.
+  first
+  | (unfold genConvertPatchesList Src.convertPatchesList; cases l <;> src_eq)
+  | (rw [← convertPatchesListIdx_eq]; unfold genConvertPatchesList Src.convertPatchesListIdx; cases l <;> src_eq)
 
 theorem genSetPatchesAroundLandmarks_eq (dflt : α) (pix : NDArr α) (lms : List Pt) (patches : PatchArg α)
     (o : Option OffArg) (oi : Option Nat) :
